@@ -1,8 +1,9 @@
 // h_compare: all relational operators on pairs of views / arrays (C07).
-// Input: case <id> / xroot <a|b|c> D f l ... / xop <name> <op> / xdata <name> v... / cmp / end
+// Input: case <id> / xroot <a|b|c> D f l ... | xshare <name> <other> / xop <name> <op> / xdata <name> v... / cmp / end
 // Output: V lines (sizes), C lines: for each ordered pair the results of == != < <= > (>= for D = 1) on the views,
 // on owning copies of them, and == != between a view and an owning copy.
 #include "common/dynview.hpp"
+#include <functional>
 
 using dv::idx_t;
 
@@ -10,7 +11,10 @@ template<int D, std::size_t... I>
 auto make_ext(std::vector<std::pair<idx_t, idx_t>> const& e, std::index_sequence<I...> /*unused*/) {
 	return multi::extensions_t<D>{multi::iextension{e[I].first, e[I].second}...};
 }
-struct Rt { std::shared_ptr<void> keep; int* data = nullptr; idx_t n = 0; std::unique_ptr<dv::Base<int>> view; };
+struct Rt {
+	std::shared_ptr<void> keep; int* data = nullptr; idx_t n = 0; std::unique_ptr<dv::Base<int>> view;
+	std::function<std::unique_ptr<dv::Base<int>>()> fresh;  // another view of the whole root (xshare: aliasing operands)
+};
 template<int D> Rt make_root(std::vector<std::pair<idx_t, idx_t>> const& e) {
 	auto x = make_ext<D>(e, std::make_index_sequence<D>{});
 	idx_t n = 1;
@@ -21,6 +25,7 @@ template<int D> Rt make_root(std::vector<std::pair<idx_t, idx_t>> const& e) {
 	r.n = n;
 	r.data = buf->data();
 	r.view = std::make_unique<dv::Holder<int, D>>(ref.layout(), ref.base());
+	r.fresh = [lay = ref.layout(), base = ref.base()]() -> std::unique_ptr<dv::Base<int>> { return std::make_unique<dv::Holder<int, D>>(lay, base); };
 	r.keep = buf;
 	return r;
 }
@@ -121,6 +126,14 @@ int main() {
 				std::vector<std::pair<idx_t, idx_t>> e(static_cast<std::size_t>(D));
 				for(auto& p : e) { is >> p.first >> p.second; }
 				roots[idx(n)] = make_root_dyn(D, e);
+			} else if(kw == "xshare") {  // operand n is a view over operand m's root: same storage
+				std::string n; std::string m;
+				is >> n >> m;
+				auto const& src = roots[idx(m)];
+				if(!src.fresh) { throw dv::unsupported("xshare of a rank-0 root"); }
+				Rt r;
+				r.keep = src.keep; r.data = src.data; r.n = src.n; r.fresh = src.fresh; r.view = src.fresh();
+				roots[idx(n)] = std::move(r);
 			} else if(kw == "xop") {
 				if(dead) { continue; }
 				std::string n;
